@@ -420,7 +420,13 @@ fn t_query(_deps: Deps<MyQuery>, _env: Env, _msg: Empty) -> StdResult<Binary> {
 }
 fn t_reply(deps: DepsMut<MyQuery>, env: Env, reply: Reply) -> Result<Response<MyMsg>, StdError> {
     deps.storage.set(b"reply-write", b"1");
-    log("contract", "reply", "", format!("{} id={} ok={} payload={}", env.contract.address, reply.id, reply.result.is_ok(), reply.payload));
+    // (whether the text of a failure names the failure of the module that refused: "configured to
+    // fail" is what every refusing module and callee of this harness says)
+    let cause = match &reply.result {
+        cosmwasm_std::SubMsgResult::Err(t) => t.contains("configured to fail") || t.contains("Cannot transfer empty coins amount"),
+        cosmwasm_std::SubMsgResult::Ok(_) => false,
+    };
+    log("contract", "reply", "", format!("{} id={} ok={} payload={} cause_visible={}", env.contract.address, reply.id, reply.result.is_ok(), reply.payload, cause));
     Ok(Response::new())
 }
 
@@ -447,7 +453,13 @@ fn e_query(_deps: Deps, _env: Env, _msg: Empty) -> StdResult<Binary> {
 }
 fn e_reply(deps: DepsMut, env: Env, reply: Reply) -> Result<Response, StdError> {
     deps.storage.set(b"reply-write", b"1");
-    log("contract", "reply", "", format!("{} id={} ok={} payload={}", env.contract.address, reply.id, reply.result.is_ok(), reply.payload));
+    // (whether the text of a failure names the failure of the module that refused: "configured to
+    // fail" is what every refusing module and callee of this harness says)
+    let cause = match &reply.result {
+        cosmwasm_std::SubMsgResult::Err(t) => t.contains("configured to fail") || t.contains("Cannot transfer empty coins amount"),
+        cosmwasm_std::SubMsgResult::Ok(_) => false,
+    };
+    log("contract", "reply", "", format!("{} id={} ok={} payload={} cause_visible={}", env.contract.address, reply.id, reply.result.is_ok(), reply.payload, cause));
     Ok(Response::new())
 }
 
@@ -666,7 +678,8 @@ fn run_case(ctx: &Ctx, w: &mut RWorld, c: &Case) -> u64 {
         if replies.len() != want_reply as usize {
             ctx.violation("c17:reply-per-reply_on", json!({"case": cj(), "replies": replies.iter().map(|r| format!("{:?}", r)).collect::<Vec<_>>(), "expected": want_reply}));
         } else if let Some(r) = replies.first() {
-            let want_payload = format!("{} id=77 ok={} payload={}", emitter, !module_fails, Binary::from(b"pl"));
+            // the failure the reply is told about is the refusing module's own failure
+            let want_payload = format!("{} id=77 ok={} payload={} cause_visible={}", emitter, !module_fails, Binary::from(b"pl"), module_fails);
             if r.payload != want_payload {
                 ctx.violation("c17:reply-content", json!({"case": cj(), "got": r.payload, "want": want_payload}));
             }
